@@ -150,6 +150,74 @@ def dumpsSortedL (v : JVal) : List Char := dumpsL (sortKeys v)
 /-- `json.dumps(v, sort_keys=True)` -/
 def dumpsSorted (v : JVal) : String := String.ofList (dumpsSortedL v)
 
+/-! ## other formats: `separators`, `ensure_ascii=False`
+
+`harness/impl.py` writes metadata values as `json.dumps(v, sort_keys=True, separators=(',', ':'), ensure_ascii=False)`
+(`cj`).  `dumpsF` is the encoder for a format `Fmt`: the item separator is `w1 ++ "," ++ w2`, the key separator
+`w3 ++ ":" ++ w4` (Python takes arbitrary strings; the default is `w2 = w4 = " "`, the compact form has all four
+empty), and `ascii = false` selects `py_encode_basestring`, whose `ESCAPE = [\x00-\x1f\\"\b\f\n\r\t]` escapes only the
+control characters, the quote and the backslash. -/
+
+structure Fmt where
+  ascii : Bool
+  w1 : List Char
+  w2 : List Char
+  w3 : List Char
+  w4 : List Char
+
+/-- `json.dumps(v)` -/
+def Fmt.default : Fmt := ⟨true, [], [' '], [], [' ']⟩
+
+/-- `json.dumps(v, separators=(',', ':'), ensure_ascii=False)` -/
+def Fmt.compact : Fmt := ⟨false, [], [], [], []⟩
+
+def Fmt.itemSep (fmt : Fmt) : List Char := fmt.w1 ++ ',' :: fmt.w2
+
+def Fmt.keySep (fmt : Fmt) : List Char := fmt.w3 ++ ':' :: fmt.w4
+
+/-- `replace(match)` of `py_encode_basestring` for one character -/
+def encodeCharRaw (c : Char) : List Char :=
+  if c = '"' then ['\\', '"']
+  else if c = '\\' then ['\\', '\\']
+  else if c = '\n' then ['\\', 'n']
+  else if c = '\r' then ['\\', 'r']
+  else if c = '\t' then ['\\', 't']
+  else if c = Char.ofNat 8 then ['\\', 'b']
+  else if c = Char.ofNat 12 then ['\\', 'f']
+  else if c.toNat < 32 then uEsc c.toNat
+  else [c]
+
+def encodeBodyF (ascii : Bool) : List Char → List Char
+  | [] => []
+  | c :: cs => (if ascii then encodeChar c else encodeCharRaw c) ++ encodeBodyF ascii cs
+
+def encodeStringF (fmt : Fmt) (s : List Char) : List Char := '"' :: (encodeBodyF fmt.ascii s ++ ['"'])
+
+mutual
+def dumpsF (fmt : Fmt) : JVal → List Char
+  | .null => ['n', 'u', 'l', 'l']
+  | .bool true => ['t', 'r', 'u', 'e']
+  | .bool false => ['f', 'a', 'l', 's', 'e']
+  | .int i => intText i
+  | .str s => encodeStringF fmt s.toList
+  | .arr [] => ['[', ']']
+  | .arr (x :: xs) => '[' :: (dumpsF fmt x ++ arrTailF fmt xs)
+  | .obj [] => ['{', '}']
+  | .obj ((k, v) :: kvs) => '{' :: (encodeStringF fmt k.toList ++ (fmt.keySep ++ (dumpsF fmt v ++ objTailF fmt kvs)))
+def arrTailF (fmt : Fmt) : List JVal → List Char
+  | [] => [']']
+  | x :: xs => fmt.itemSep ++ (dumpsF fmt x ++ arrTailF fmt xs)
+def objTailF (fmt : Fmt) : List (String × JVal) → List Char
+  | [] => ['}']
+  | (k, v) :: kvs =>
+    fmt.itemSep ++ (encodeStringF fmt k.toList ++ (fmt.keySep ++ (dumpsF fmt v ++ objTailF fmt kvs)))
+end
+
+/-- `cj(v)` of `harness/impl.py`: sorted keys, compact separators, non-ASCII characters written as they are -/
+def cjL (v : JVal) : List Char := dumpsF Fmt.compact (sortKeys v)
+
+def cj (v : JVal) : String := String.ofList (cjL v)
+
 /-! ## decoder -/
 
 /-- `WHITESPACE_STR = ' \t\n\r'` -/
